@@ -255,68 +255,98 @@ theorem filter_mirror (S : Int) (rows : List RRow) (p q : RRow → Bool)
 
 /-- **release_mirror** (discrete mode): the reversed releaser and the forward releaser of the
     mirrored table release at the same steps the same rows (up to the mirrored time stamp), in
-    the same order — each release happens at its stated time.  Cold start (`c.warm = false`):
-    the warm filter `r.time > c.start` is not mirror-symmetric, see
-    `release_mirror_warm_counterexample`. -/
+    the same order — each release happens at its stated time.  Cold and warm start: the warm
+    filter (skip everything before the first time step after the restart, in simulation order) is
+    mirror-symmetric, `2S − t ≥ S + dt ↔ t ≤ S − dt` (`mirrorCfg` keeps `dt`); see
+    `release_mirror_warm_example`. -/
 theorem release_mirror (c : RelCfg) (hrev : c.rev = true) (hc : c.continuous = false)
-    (hrt : c.releaseTimeCol = false) (hw : c.warm = false) (rows : List RRow) :
+    (hrt : c.releaseTimeCol = false) (rows : List RRow) :
     match Rel.init c rows, Rel.init (mirrorCfg c) (rows.map (mirrorRow c.start)) with
     | .ok r, .ok r' => r'.steps = r.steps ∧ r'.total = r.total ∧
         r'.groups = r.groups.map (fun g => g.map (mirrorRow c.start))
     | .error e, .error e' => e = e'
     | _, _ => False := by
   obtain ⟨S, E, dt, rev, cont, freq, warm, rtc⟩ := c
-  simp only at hrev hc hrt hw
-  subst hrev hc hrt hw
+  simp only at hrev hc hrt
+  subst hrev hc hrt
   have h1 : (rows.map (mirrorRow S)).filter (fun r => Rel.before false r.time (2 * S - E)) =
       (rows.filter (fun r => Rel.before true r.time E)).map (mirrorRow S) := by
     apply filter_mirror
     intro r
     simp only [Rel.before, mirrorRow, Bool.false_eq_true, if_false, if_true]
     exact decide_eq_decide.mpr (by omega)
-  simp only [Rel.init, mirrorCfg, h1, Bool.false_eq_true, if_false, Bool.not_false, Bool.and_true]
-  generalize rows.filter (fun r => Rel.before true r.time E) = r1
-  have h3 : (r1.map (mirrorRow S)).filter (fun r => !Rel.before false r.time S) =
+  have h3 : ∀ r1 : List RRow, (r1.map (mirrorRow S)).filter (fun r => !Rel.before false r.time S) =
       (r1.filter (fun r => !Rel.before true r.time S)).map (mirrorRow S) := by
+    intro r1
     apply filter_mirror
     intro r
     simp only [Rel.before, mirrorRow, Bool.false_eq_true, if_false, if_true]
     congr 1
     exact decide_eq_decide.mpr (by omega)
-  rw [h3]
-  generalize r1.filter (fun r => !Rel.before true r.time S) = r3
-  simp only [List.isEmpty_map]
-  by_cases e1 : r1.isEmpty = true
-  · simp [e1]
-  by_cases e3 : r3.isEmpty = true
-  · simp [e1, e3]
-  simp only [e1, e3]
-  refine ⟨?_, ?_, ?_⟩ <;> dsimp only
-  · rw [uniqueTimes_mirror, List.map_map]
-    apply List.map_congr_left
-    intro t _
-    exact ((time2step_mirror S E dt t).1).symm
-  · simp [mirrorRow, Function.comp_def]
-  · rw [uniqueTimes_mirror, List.map_map, List.map_map]
-    apply List.map_congr_left
-    intro t _
-    simp only [Function.comp]
+  have h4 : ∀ r3 : List RRow,
+      (r3.map (mirrorRow S)).filter (fun r => !Rel.before false r.time (S + dt)) =
+      (r3.filter (fun r => !Rel.before true r.time (S - dt))).map (mirrorRow S) := by
+    intro r3
     apply filter_mirror
     intro r
-    simp [mirrorRow]
+    simp only [Rel.before, mirrorRow, Bool.false_eq_true, if_false, if_true]
+    congr 1
+    exact decide_eq_decide.mpr (by omega)
+  -- the final assembly, for the table `r4` that survives the filters
+  have hfin : ∀ r4 : List RRow,
+      (List.map (tkFwd S E dt).time2step (uniqueTimes (r4.map (mirrorRow S))) =
+          List.map (tkRev S E dt).time2step (uniqueTimes r4)) ∧
+      (List.foldl (· + ·) 0 ((r4.map (mirrorRow S)).map (·.mult)) = List.foldl (· + ·) 0 (r4.map (·.mult))) ∧
+      (List.map (fun t => (r4.map (mirrorRow S)).filter (·.time == t)) (uniqueTimes (r4.map (mirrorRow S))) =
+        List.map (fun g => g.map (mirrorRow S)) (List.map (fun t => r4.filter (·.time == t)) (uniqueTimes r4))) := by
+    intro r4
+    refine ⟨?_, ?_, ?_⟩
+    · rw [uniqueTimes_mirror, List.map_map]
+      apply List.map_congr_left
+      intro t _
+      exact ((time2step_mirror S E dt t).1).symm
+    · simp [mirrorRow, Function.comp_def]
+    · rw [uniqueTimes_mirror, List.map_map, List.map_map]
+      apply List.map_congr_left
+      intro t _
+      simp only [Function.comp]
+      apply filter_mirror
+      intro r
+      simp [mirrorRow]
+  cases warm
+  · simp only [Rel.init, mirrorCfg, h1, h3, Bool.false_eq_true, if_false, Bool.not_false, Bool.and_true]
+    generalize rows.filter (fun r => Rel.before true r.time E) = r1
+    generalize r1.filter (fun r => !Rel.before true r.time S) = r3
+    simp only [List.isEmpty_map]
+    by_cases e1 : r1.isEmpty = true
+    · simp [e1]
+    by_cases e3 : r3.isEmpty = true
+    · simp [e1, e3]
+    simp only [e1, e3]
+    exact hfin r3
+  · simp only [Rel.init, mirrorCfg, h1, h3, h4, Bool.false_eq_true, if_false, if_true, Bool.not_true,
+      Bool.and_false]
+    generalize rows.filter (fun r => Rel.before true r.time E) = r1
+    generalize (r1.filter (fun r => !Rel.before true r.time S)).filter
+      (fun r => !Rel.before true r.time (S - dt)) = r4
+    simp only [List.isEmpty_map]
+    by_cases e1 : r1.isEmpty = true
+    · simp [e1]
+    simp only [e1]
+    exact hfin r4
 
-/-- the hypothesis `c.warm = false` of `release_mirror` is needed: the warm filter `r.time > c.start`
-    is not mirror-symmetric.  Reversed warm run from 10 to 0 with one row at time 5: the reversed
-    releaser drops the row (no release at all), the mirrored forward releaser releases it at step 5. -/
+/-- a warm start is covered by `release_mirror`: the warm filter is mirror-symmetric.  Reversed warm
+    run from 10 to 0 (`dt = 1`) with one row at time 5: the reversed releaser and the mirrored
+    forward releaser (row at time 15) both accept the row and release it at step 5. -/
 def warmCfg : RelCfg :=
   { start := 10, stop := 0, dt := 1, rev := true, continuous := false, freq := 1, warm := true,
     releaseTimeCol := false }
 def warmRows : List RRow := [{ time := 5, mult := 1, cols := [] }]
 
-theorem release_mirror_warm_counterexample :
+theorem release_mirror_warm_example :
     ∃ r r', Rel.init warmCfg warmRows = .ok r ∧
       Rel.init (mirrorCfg warmCfg) (warmRows.map (mirrorRow warmCfg.start)) = .ok r' ∧
-      r.steps = [] ∧ r'.steps = [5] ∧ r.total = 0 ∧ r'.total = 1 :=
+      r.steps = [5] ∧ r'.steps = [5] ∧ r.total = 1 ∧ r'.total = 1 :=
   ⟨_, _, rfl, rfl, rfl, rfl, rfl, rfl⟩
 
 end Ladim.C10
